@@ -667,40 +667,6 @@ func suiteTrace(h *H) {
 		}
 		os.RemoveAll(dir)
 	}
-	// ---- many sessions in which a source file cannot be opened a second time (the sender reads a file through two
-	// opens), then a healthy one: whatever the earlier sessions left behind in the process, the healthy one completes
-	{
-		dir := filepath.Join(base, "reopen")
-		T := time.Unix(1400000000, 0)
-		bad := 0
-		for i := 0; i < 40; i++ {
-			memfs := fstest.MapFS{"f": &fstest.MapFile{Data: bytes.Repeat([]byte{byte(i)}, 5000), Mode: 0o644, ModTime: T}}
-			mod := &rsyncd.Module{Name: "memfs", FS: &faultyFS{MapFS: memfs, failOpen: map[string]int{"f": 2}}}
-			dst := filepath.Join(dir, fmt.Sprintf("d%d", i))
-			os.MkdirAll(dst, 0o755)
-			out := runModuleOverTransport(mod, []string{"-a"}, dst, 64*1024, 64*1024, int64(h.seed)+int64(i), 20*time.Second)
-			os.RemoveAll(dst)
-			if strings.HasPrefix(out, "timeout") {
-				bad++
-				if bad >= 2 {
-					break // they all would: no need to wait for forty deadlines
-				}
-			}
-		}
-		memfs := fstest.MapFS{"f": &fstest.MapFile{Data: bytes.Repeat([]byte("ok"), 4000), Mode: 0o644, ModTime: T}}
-		dst := filepath.Join(dir, "healthy")
-		os.MkdirAll(dst, 0o755)
-		out := runModuleOverTransport(&rsyncd.Module{Name: "memfs", FS: memfs}, []string{"-a"}, dst, 64*1024, 64*1024, int64(h.seed), 30*time.Second)
-		v := ""
-		if bad > 0 {
-			v = "FAIL[C18] a session whose source file could not be opened a second time (after its data had been sent) never ends"
-		} else if out != "ok" {
-			v = "FAIL[C18] after 40 sessions with a source file that could not be opened a second time, a healthy session does not complete: " + out
-		}
-		h.emit(fmt.Sprintf("!trace-reopen seed=%d", h.seed), strings.SplitN(out, ":", 2)[0], v, true)
-		h.stat("trace.reopen")
-		os.RemoveAll(dir)
-	}
 	// ---- files that change while they are sent: what the receiver reconstructs does not verify. However many
 	// files that concerns, and whatever the transport buffers, the session ends — with an error, or with
 	// success if the files are requested again and then arrive intact.
@@ -760,6 +726,41 @@ func suiteTrace(h *H) {
 				os.RemoveAll(dst)
 			}
 		}
+		os.RemoveAll(dir)
+	}
+	// (last in this suite: what such sessions leave behind in the process must not spoil the cases above)
+	// ---- many sessions in which a source file cannot be opened a second time (the sender reads a file through two
+	// opens), then a healthy one: whatever the earlier sessions left behind in the process, the healthy one completes
+	{
+		dir := filepath.Join(base, "reopen")
+		T := time.Unix(1400000000, 0)
+		bad := 0
+		for i := 0; i < 40; i++ {
+			memfs := fstest.MapFS{"f": &fstest.MapFile{Data: bytes.Repeat([]byte{byte(i)}, 5000), Mode: 0o644, ModTime: T}}
+			mod := &rsyncd.Module{Name: "memfs", FS: &faultyFS{MapFS: memfs, failOpen: map[string]int{"f": 2}}}
+			dst := filepath.Join(dir, fmt.Sprintf("d%d", i))
+			os.MkdirAll(dst, 0o755)
+			out := runModuleOverTransport(mod, []string{"-a"}, dst, 64*1024, 64*1024, int64(h.seed)+int64(i), 20*time.Second)
+			os.RemoveAll(dst)
+			if strings.HasPrefix(out, "timeout") {
+				bad++
+				if bad >= 2 {
+					break // they all would: no need to wait for forty deadlines
+				}
+			}
+		}
+		memfs := fstest.MapFS{"f": &fstest.MapFile{Data: bytes.Repeat([]byte("ok"), 4000), Mode: 0o644, ModTime: T}}
+		dst := filepath.Join(dir, "healthy")
+		os.MkdirAll(dst, 0o755)
+		out := runModuleOverTransport(&rsyncd.Module{Name: "memfs", FS: memfs}, []string{"-a"}, dst, 64*1024, 64*1024, int64(h.seed), 30*time.Second)
+		v := ""
+		if bad > 0 {
+			v = "FAIL[C18] a session whose source file could not be opened a second time (after its data had been sent) never ends"
+		} else if out != "ok" {
+			v = "FAIL[C18] after 40 sessions with a source file that could not be opened a second time, a healthy session does not complete: " + out
+		}
+		h.emit(fmt.Sprintf("!trace-reopen seed=%d", h.seed), strings.SplitN(out, ":", 2)[0], v, true)
+		h.stat("trace.reopen")
 		os.RemoveAll(dir)
 	}
 }
